@@ -14,6 +14,9 @@ PROP = "C15"
 PROFILES = ("rel",)
 
 
+WIDTHS = [None, None, 1, 7, 8, 8, 9, 12, 32, 64, 68, 71, 160, 161, 248, 255, 256, 256]
+
+
 def weakenings_of_word(rng, width, usage):
     """Words below (width, usage) in the lattice."""
     below = {"bytes": ["bytes"], "numeric": ["bytes", "numeric"], "unsigned": ["bytes", "numeric", "unsigned"],
@@ -42,7 +45,7 @@ def gen(rng):
         if k == "word":
             usage = rng.choice(uf.USAGES)
             info["usage"] = usage
-            info["width"] = uf.FIXED_WIDTH.get(usage, rng.choice([None, 8, 32, 160, 256]))
+            info["width"] = uf.FIXED_WIDTH.get(usage, rng.choice(WIDTHS))
         classes.append(info)
     # component variables are word classes of their own (single member)
     for info in classes:
@@ -101,7 +104,7 @@ def gen(rng):
             if not comp_vars:
                 continue
             usage = rng.choice(["numeric", "unsigned", "address", "bool", "bytes"])
-            width = uf.FIXED_WIDTH.get(usage, rng.choice([None, 8, 256]))
+            width = uf.FIXED_WIDTH.get(usage, rng.choice([None, 8, 12, 255, 256]))
             for cv in comp_vars:
                 if rng.random() < 0.7:
                     js.append([cv, weakenings_of_word(rng, width, usage)])
@@ -209,7 +212,12 @@ def inject(rng, nvars, js, classes):
             return None
         options = []
         if want[1] is not None:
-            other = rng.choice([w for w in (8, 32, 160, 256) if w != want[1]])
+            if rng.random() < 0.5:
+                other = rng.choice([w for w in (8, 32, 160, 256) if w != want[1]])
+            else:
+                # a different width close by: same byte, next byte, off by one
+                near = [want[1] + dlt for dlt in (-9, -8, -7, -4, -1, 1, 3, 4, 7, 8, 9) if 1 <= want[1] + dlt <= 256]
+                other = rng.choice(near)
             options.append(["word", other, "bytes"] if other not in (8, 160, 32) else ["word", other, "numeric"])
         incompatible = {"bool": "address", "address": "bool", "signed": "unsigned", "unsigned": "signed",
                         "selector": "bool", "function": "bool", "numeric": "bool"}.get(want[2])
